@@ -140,6 +140,7 @@ func buildReport(prop, tier string, seed int64, cfg config, b budgets, ld *loade
 	states, transitions, queries, obl, oblSym := 0, 0, 0, 0, 0
 	var solverS float64
 	funcs := map[string]bool{}
+	summaries := map[string]bool{}
 	var samples []any
 	var problems []string
 	inconclusive, unsupported, bound := 0, 0, 0
@@ -164,6 +165,9 @@ func buildReport(prop, tier string, seed int64, cfg config, b budgets, ld *loade
 		truncated = truncated || r.Truncated
 		for f := range r.Funcs {
 			funcs[f] = true
+		}
+		for f := range r.Summaries {
+			summaries[f] = true
 		}
 		for _, s := range r.Samples {
 			samples = append(samples, s)
@@ -320,10 +324,14 @@ func buildReport(prop, tier string, seed int64, cfg config, b budgets, ld *loade
 	cov["functions_encoded"] = sortedKeys(funcs)
 	cov["bounds"] = cfg.Bounds
 	cov["budgets"] = b
-	cov["stubs"] = cfg.Stubs
+	cov["stubs"] = append(append([]string(nil), cfg.Stubs...), sortedKeys(summaries)...)
 	cov["workers"] = nw
 	cov["load_s"] = loadS
-	cov["solver"] = "z3 4.8.12 (/usr/bin/z3 -in), no set-logic"
+	if cfg.Solver == "cvc5" {
+		cov["solver"] = "portfolio: cvc5 1.0 (--incremental --solve-bv-as-int=sum) primary, z3 4.8.12 (-in, qfbv/qfufbv tactic) on unknown"
+	} else {
+		cov["solver"] = "portfolio: z3 4.8.12 (-in; incremental core then qfbv/qfufbv tactic) primary, cvc5 1.0 (--solve-bv-as-int=sum) on unknown"
+	}
 	cov["problems"] = problems
 	cov["vacuous_labels"] = vacuous
 	cov["violations_detail"] = violOut
